@@ -517,6 +517,37 @@ def cpRound (H : FHash → Hdr → Hdr) (interval : Nat) (s : St) (cps : List Hd
       { st := s, cur := cur, curH := curH, curInt := startInt, initial := cur, cache := [] }
     (c.st, if c.panic then .panic else .ok)
 
+/-! ### start of a cfheaders sync (`cfHandler`) from ANY start state (fresh or resumed) -/
+
+/-- `cfHandler` enters the checkpointed phase (getcfcheckpt of every peer, `resolveConflict`,
+`getCheckpointedCFHeaders`) iff the block tip has reached the first checkpoint interval
+(`lastHeight >= wire.CFCheckptInterval`) - whatever the filter tip is -/
+def checkpointedPhase (interval blockTip : Nat) : Bool := decide (interval ≤ blockTip)
+
+/-- the variant with a "restart optimisation": only if the filter tip lags a whole interval -/
+def checkpointedPhaseLag (interval filterTip blockTip : Nat) : Bool :=
+  decide (interval ≤ blockTip) && decide (filterTip + interval ≤ blockTip)
+
+/-- the hard-coded pass with its scan starting at index `start` (the code: 0) -/
+def contradictsHardFrom (start interval : Nat) (hard : Nat → Option Hdr) (cps : List Hdr) : Bool :=
+  (List.range cps.length).any (fun i => decide (start ≤ i) &&
+    match hard ((i + 1) * interval), cps[i]? with
+    | some c, some x => x != c
+    | _, _ => false)
+
+/-- `cfHandler` caps every served checkpoint list at the block tip -/
+def capLists (interval blockTip : Nat) (cp : List (Peer × List Hdr)) : List (Peer × List Hdr) :=
+  cp.map (fun pc => (pc.1, pc.2.take (blockTip / interval)))
+
+/-- first turn of the cfheaders sync from state `s` (filter tip `s.fstore.length - 1` anywhere at or
+below the block tip `s.blocks.length - 1`): `none` = the checkpointed phase is not entered -/
+def cfStart (interval : Nat) (hard : Nat → Option Hdr) (s : St) (net : Net)
+    (cp : List (Peer × List Hdr)) : St × Option RCOut :=
+  if checkpointedPhase interval (s.blocks.length - 1) then
+    let r := resolveConflict interval hard s net (capLists interval (s.blocks.length - 1) cp)
+    (r.1, some r.2)
+  else (s, none)
+
 /-! ### state machine -/
 
 inductive Op where
